@@ -149,6 +149,7 @@ type conn struct {
 	followUp   bool
 	broken     bool // a write failed while reads were held
 	groupTag   string
+	groupFrom  int
 	silent     bool // fell silent after its graceful GOAWAY (taken as connection error)
 
 	steps []Step
@@ -240,9 +241,7 @@ func (c *conn) logf(format string, args ...any) {
 
 func (c *conn) violate(class, format string, args ...any) {
 	if c.fail == nil {
-		if c.groupTag != "" {
-			class = c.groupTag // a predicate on the input (see refsm.go Verdict.Tag)
-		}
+
 		c.fail = &failure{"violation", class, fmt.Sprintf(format, args...)}
 		c.logf("VIOLATION[%s] %s", class, c.fail.msg)
 	}
@@ -468,9 +467,11 @@ func (c *conn) judge(upto int) {
 		upto = len(evs) - 1
 	}
 	var reacts []reaction
+	var newResp []uint32
 	settingsAcks := 0
 	pingAcks := map[[8]byte]int{}
 	from := c.cursor
+	c.groupFrom = from
 	fed := false
 	feed := func() {
 		// The reference sees the server's frames after the verdicts of this group are
@@ -512,6 +513,7 @@ func (c *conn) judge(upto int) {
 				for _, h := range e.Headers {
 					if h.Name == ":status" {
 						c.respStatus[e.StreamID] = h.Value
+						newResp = append(newResp, e.StreamID)
 					}
 				}
 			}
@@ -623,7 +625,16 @@ func (c *conn) judge(upto int) {
 				} else if c.eof {
 					cls = "closed-without-goaway"
 				}
-				c.violate(cls+":"+frameName(v)+":"+slug(v.Why), "frame %s [%s] must draw %s; observed: %s", v.Desc, p.label, v, got)
+				cls += ":" + frameName(v) + ":" + slug(v.Why)
+				switch {
+				case v.Tag == h2peer.TagAfterRejected && j < len(reacts) && reacts[j].kind == h2peer.OutConnErr && reacts[j].code == http2.ErrCodeProtocol:
+					cls = v.Tag // D20 (b): the server takes the id for idle
+				case v.Tag == h2peer.TagAfterRejected && j >= len(reacts) && !c.eof && (v.Type == 1 || v.Type == 9):
+					cls = v.Tag // D20 (a): the server accepts a HEADERS block on the used-up id
+				case v.Tag == "frame-shorter-than-its-flags-require" && c.eof:
+					cls = v.Tag
+				}
+				c.violate(cls, "frame %s [%s] must draw %s; observed: %s", v.Desc, p.label, v, got)
 				return
 			}
 		}
@@ -667,6 +678,19 @@ func (c *conn) judge(upto int) {
 	if c.fail != nil {
 		return
 	}
+	for _, sid := range newResp {
+		rs := c.ref.Streams[sid]
+		switch {
+		case rs != nil && (rs.MayStart || rs.Auto4xx):
+		case rs != nil && rs.Rejected:
+			// D20 (a): the server acts on a HEADERS block on the used-up id (answers it itself)
+			c.violate(h2peer.TagAfterRejected, "response (status %s) on stream %d: the server acted on a HEADERS block on an id the client had used up with a rejected malformed block", c.respStatus[sid], sid)
+			return
+		default:
+			c.violate("response-without-request:"+c.ref.StateOf(sid).String(), "response (status %s) on stream %d, on which the reference has no request the server may act on (state %v)", c.respStatus[sid], sid, c.ref.StateOf(sid))
+			return
+		}
+	}
 	if c.followUp {
 		c.followUp = false
 		defer func() {
@@ -677,7 +701,11 @@ func (c *conn) judge(upto int) {
 	}
 	if j < len(reacts) {
 		r := reacts[j]
-		c.violate("unexpected-error:"+c.lastLabelKind(), "reaction %s is not explained by any frame sent (all frames of this group were judged; reference allowed none of them to draw it)", r)
+		cls := "unexpected-error:" + c.lastLabelKind()
+		if c.groupTag == h2peer.TagAfterRejected && r.kind == h2peer.OutConnErr && r.code == http2.ErrCodeProtocol {
+			cls = c.groupTag // D20 (b)
+		}
+		c.violate(cls, "reaction %s is not explained by any frame sent (all frames of this group were judged; reference allowed none of them to draw it)", r)
 		return
 	}
 	if c.legal && len(reacts) > 0 {
@@ -820,7 +848,10 @@ func (c *conn) await4xx(sid uint32) bool {
 	if full {
 		c.releaseZombies()
 	}
-	_, ok := c.peer.WaitFor(0, watchdog, func(e h2peer.Event) bool {
+	// only what came after this group was sent counts (the id may have drawn an
+	// RST_STREAM earlier, e.g. WINDOW_UPDATE with increment 0 while it was idle)
+	from := c.groupFrom
+	end, ok := c.peer.WaitFor(from, watchdog, func(e h2peer.Event) bool {
 		if e.EOF || e.StreamID != sid {
 			return false
 		}
@@ -837,7 +868,25 @@ func (c *conn) await4xx(sid uint32) bool {
 		}
 		return false
 	}
-	r := c.peer.Response(sid)
+	var r h2peer.Response
+	for _, e := range c.peer.Events()[from : end+1] {
+		if e.EOF || e.StreamID != sid {
+			continue
+		}
+		switch {
+		case e.Is(http2.FrameRSTStream):
+			r.Reset, r.ResetCode = true, e.ErrCode
+		case e.Is(http2.FrameHeaders) || e.Is(http2.FrameContinuation):
+			for _, h := range e.Headers {
+				if h.Name == ":status" && r.Status == "" {
+					r.Status = h.Value
+				}
+			}
+			r.Ended = r.Ended || (e.Is(http2.FrameHeaders) && e.EndStream())
+		case e.Is(http2.FrameData):
+			r.Ended = r.Ended || e.EndStream()
+		}
+	}
 	c.st.resp4xx++
 	c.mu.Lock()
 	started := c.hs[sid] != nil && c.hs[sid].nStarted > 0
@@ -884,10 +933,11 @@ func (c *conn) checkStarts() {
 		rs := c.ref.Streams[s.SID]
 		if rs == nil || !rs.MayStart {
 			st := c.ref.StateOf(s.SID)
-			if rs != nil && rs.Rejected && c.groupTag == "" {
-				c.groupTag = "stream-opened-by-rejected-headers"
+			cls := "handler-not-allowed:" + st.String()
+			if s.SID%2 == 1 && s.SID > c.ref.MaxAcceptedID && s.SID <= c.ref.MaxClientID {
+				cls = h2peer.TagAfterRejected // D20 (a)
 			}
-			c.violate("handler-not-allowed:"+st.String(), "handler started for stream %d, for which the reference allows none (reference stream state: %v; dead=%v graceful-goaway=%v last=%d)", s.SID, st, c.ref.Dead, c.ref.ServerGoAway, c.ref.ServerLast)
+			c.violate(cls, "handler started for stream %d, for which the reference allows none (reference stream state: %v; dead=%v graceful-goaway=%v last=%d)", s.SID, st, c.ref.Dead, c.ref.ServerGoAway, c.ref.ServerLast)
 		}
 	}
 	c.checkedSt = len(c.starts)
